@@ -10,7 +10,9 @@
     * try_ e            : one locked piece
     * teardown          : one locked piece
     * control e (API)   : locked piece (the request); if it failed, a second locked piece
-                          (GO_ERROR); if that failed too, an UNLOCKED write of ERROR.
+                          (GO_ERROR); if that failed too, an UNLOCKED read of the state
+                          (`env.CurrentState() != "DONE"`) and, unless it read DONE, an UNLOCKED
+                          write of ERROR — two separate moves: other callers may move in between.
   A schedule says which caller moves next. A caller that wants a locked piece can only move
   when nobody holds the mutex; it then holds it until its `leave` move. A move that is not
   enabled leaves the system unchanged, so every `List Nat` is a schedule.
@@ -22,6 +24,7 @@ namespace EnvM
 inductive Piece where
   | locked (q : Req)            -- try_ / teardown / the first half of control
   | goError                     -- the GO_ERROR fallback of the API glue
+  | check                       -- `env.CurrentState() != "DONE"`, read outside the mutex (changes nothing, not logged)
   | force                       -- env.Sm.SetState("ERROR"), outside the mutex
   deriving Repr, Inhabited
 
@@ -93,9 +96,12 @@ def move (hooks : List Hook) (n : Nat) (s : Sys) (i : Nat) : Sys :=
     | .between .goError =>
       if s.free then
         let x := tryTransition s.env hooks .GO_ERROR true false
-        { env := x.1, callers := s.callers.set i { c with pc := .holding (if x.2.2.isOk then none else some .force) },
+        { env := x.1, callers := s.callers.set i { c with pc := .holding (if x.2.2.isOk then none else some .check) },
           log := s.log ++ [{ caller := i, piece := .goError, before := s.env, after := x.1, result := x.2.2 }] }
       else s
+    | .between .check =>
+      -- NOT under the mutex: the glue reads the state; a finished environment is left alone
+      { s with callers := s.callers.set i { c with pc := if s.env.st = .DONE then .done else .between .force } }
     | .between .force =>
       -- NOT under the mutex: allowed even while another caller holds it
       let env' := { s.env with st := .ERROR }
@@ -124,6 +130,7 @@ def LogEntry.faithful (hooks : List Hook) (n : Nat) (x : LogEntry) : Prop :=
   match x.piece with
   | .locked q => ∃ listed, (x.after, x.result) = runLocked hooks n listed x.before q
   | .goError => (x.after, x.result) = ((tryTransition x.before hooks .GO_ERROR true false).1, (tryTransition x.before hooks .GO_ERROR true false).2.2)
+  | .check => x.after = x.before
   | .force => x.after = { x.before with st := .ERROR }
 
 end EnvM
